@@ -119,8 +119,13 @@ def seq_digest(sc):
     return _SEQ[key]
 
 
+HANGS = [0]
+
+
 def record(sc):
     from harness.sched_client import ScheduledClient
+    if HANGS[0] >= 3:
+        return None
     seq = seq_digest(sc)
     cl = ScheduledClient(script=sc.get("script"), seed=sc.get("sched_seed", 0), p_ready=sc.get("p_ready", 0.5),
                          p_run=sc.get("p_run", 0.5), cores=sc.get("cores", 2))
@@ -131,6 +136,8 @@ def record(sc):
         events = cl.events
         events.append(dict(ev="end", id=-1, left=len(cl.tasks), digest=dg, **end))
     except Exception as ex:  # the run died: report as an end event that cannot match
+        if isinstance(ex, Hang):
+            HANGS[0] += 1
         events = cl.events
         events.append(dict(ev="end", id=-1, left=len(cl.tasks), digest="raised:" + type(ex).__name__ + ":" + str(ex)[:80],
                            nb=-1, obj=-1, np=-1, nx=-1))
@@ -197,6 +204,8 @@ def scenarios(ctx):
 
 def check_scenarios(ctx, scs):
     traces = [record(sc) for sc in scs]
+    scs = [sc for sc, tr in zip(scs, traces) if tr is not None]
+    traces = [tr for tr in traces if tr is not None]
     for tr in traces:
         if tr["events"][-1]["ev"] != "end":
             raise tlc.MachineryFailure("trace without end event")
@@ -239,7 +248,7 @@ def run(ctx):
                     label="simulate Batches MaxPar=%d rounds=%d K=%d" % (mp, r, k))
     scs = scenarios(ctx)
     traces = check_scenarios(ctx, scs)
-    for i in (0, len(scs) // 2, len(scs) - 1):
+    for i in (0, len(traces) // 2, len(traces) - 1):
         ctx.sample(dict(scenario=scs[i], events=traces[i]["events"][:12], n_events=len(traces[i]["events"])))
 
 
